@@ -35,6 +35,10 @@ ROOT_ENTRIES = [
     ("lookalikes", {"x.task.05/data": "a", "x.task./data": "b", ".task.3/data": "c", "x.task.0/data": "d", "x.task.5x/data": "e"}, []),
     ("staging", {"archive-tmp/x.task.9/data": "s"}, []),
     ("otherrec", {"y-2.task.7/data": "y", "y-2.task.8/deep/er/file": "z"}, [("//:y-2", 7)]),
+    # packages whose names merely contain "task": multitask-2 ~ "mult" + ?task? + 2, subtask ~ "su" + ?task
+    ("taskish-pkgs", {"multitask-2/train.task.4/data": "rec", "multitask-2/flaky.task.5/data": "unrec", "multitask-2/prep.task/out": "cmd",
+                      "subtask/fails.task.6/data": "unrec2", "my_task_1/e.task.3/data": "rec3"},
+     [("//multitask-2:train", 4), ("//my_task_1:e", 3)]),
 ]
 SUB_ENTRIES = [
     ("p_rec5", {"p/x.task.5/data": "pr5"}, [("//p:x", 5)]),
